@@ -9,4 +9,6 @@ CONSTANTS
   PreFix = TRUE
   CoarseCancel = FALSE
   Modes = {"wait"}
+  Modes2 = {"none"}
+  NeverExits = {}
 INVARIANTS NoToctouWaitWitness
